@@ -88,8 +88,18 @@ class History:
                 controls["doublebouncehost"] = dhost
             self.doublebounceto = (dto or "postmaster").encode() + b"@" + (dhost or "local.test").encode()
             if rng.random() < 0.7:
-                controls["virtualdomains"] = ["virt.test:vuser", "other.test:alias-other"]
-                self.vdoms = {b"virt.test": b"vuser", b"other.test": b"alias-other"}
+                # exact domains, a parent wildcard, the catch-all, an exception (empty prepend = not virtual); entries for
+                # single users (user@domain:prepend) are left out: the daemon's prefix stripping looks domains up only
+                self.vdoms = rng.choice([
+                    {b"virt.test": b"vuser", b"other.test": b"alias-other"},
+                    {b"virt.test": b"vuser", b"other.test": b"alias-other"},
+                    {b".test": b"wild"},
+                    {b"": b"catchall"},
+                    {b"virt.test": b"vuser", b".test": b"wild", b"": b"catchall"},
+                    {b"virt.test": b"", b".test": b"wild"},
+                    {b"other.test": b"alias-other", b"": b"all-the-rest"},
+                ])
+                controls["virtualdomains"] = [(k + b":" + v).decode() for k, v in self.vdoms.items()]
         self.ledger = ledgermod.Ledger(res, lifetime=self.lifetime)
         self.oracles = [self.ledger] + [oc(res, self) for oc in oracle_classes]
         self.sim = qsim.Sim(b, controls=controls, spawn_limit=self.spawn, gate_m=p.gate_m,
